@@ -19,6 +19,7 @@ from harness.common import Ctx, driver, pmap, use_repo
 
 FAULTS = [
     "none", "forcing_starts_late", "forcing_ends_early", "forcing_starts_fraction_late", "forcing_ends_fraction_early", "frames_out_of_order", "frame_duplicated_across_files",
+    "forcing_ends_at_last_whole_step_partial_window", "forcing_starts_fraction_late_partial_window",
     "missing_start", "missing_stop", "missing_dt", "stop_wrong_side", "release_before_start", "release_after_stop",
     "release_at_stop_only", "release_one_step_before_start", "release_half_step_before_start", "release_without_position", "release_with_x_only", "release_with_y_only", "release_with_lon_only", "no_grid_file", "no_forcing_file", "no_release_file",
     "empty_release_file_name", "no_config_file", "no_time_section", "no_tracker_section", "no_release_section",
@@ -59,6 +60,12 @@ def apply_fault(sc, fault, d):
     setup = dict(config_exists=True, version_ok=True, has_time=True, has_tracker=True, has_release=True, has_output=True,
                  has_forcing=True, grid_has_module_and_file=False, dt=scen.DT, rev=sc["rev"], grid_file_exists=True,
                  imax0=sc["imax"], jmax0=sc["jmax"], continuous=sc["continuous"], freq=sc["freq"] * scen.DT)
+    # "…_partial_window": the same with a window that is half a time step longer than a whole number of steps (the run has the
+    # same steps; what the forcing has to cover is the window [start, stop], not the steps)
+    partial = fault.endswith("_partial_window")
+    if partial:
+        fault = fault[: -len("_partial_window")]
+        sc["stop_extra"] = scen.DT // 2
     if fault == "forcing_starts_late":
         sc["fsteps"] = [s for s in sc["fsteps"] if s > 0]
         sc["cuts"] = []
@@ -75,12 +82,12 @@ def apply_fault(sc, fault, d):
             sc["fsteps"] = [0] + sc["fsteps"]
         sc["cuts"] = []
         frac_shift = {0: scen.DT // 4}
-    if fault == "forcing_ends_fraction_early":
+    if fault in ("forcing_ends_fraction_early", "forcing_ends_at_last_whole_step"):
         sc["fsteps"] = [s for s in sc["fsteps"] if s <= sc["nsteps"]]
         if sc["fsteps"][-1] != sc["nsteps"]:
             sc["fsteps"] = sc["fsteps"] + [sc["nsteps"]]
         sc["cuts"] = []
-        frac_shift = {len(sc["fsteps"]) - 1: -(scen.DT // 4)}
+        frac_shift = {len(sc["fsteps"]) - 1: -(scen.DT // 4) if fault == "forcing_ends_fraction_early" else 0}
     if frac_shift:
         nf = len(sc["fsteps"])
         for key in ("U", "V", "T", "W"):
@@ -142,7 +149,7 @@ def apply_fault(sc, fault, d):
         ftimes = [ts]
         names = [str(d / "forcing_000.nc")]
     setup["forcing_files"] = ftimes
-    start, stop = sc["start"], scen.sim2time(sc, sc["nsteps"])
+    start, stop = sc["start"], scen.sim2time(sc, sc["nsteps"]) + sg * int(sc.get("stop_extra", 0))
     setup["start"], setup["stop"] = start, stop
     rows = [dict(time=scen.sim2time(sc, r["step"]), mult=r["mult"], cols=dict(X="1", Y="1", Z="1")) for r in sc["rows"]]
     setup["release"] = dict(kind="table", rows=rows, has_position=True)
